@@ -5076,7 +5076,16 @@ class DfaCompileCtx:
         if not ProgramData.do(ProgramFlag.REMOVE_INACCESIBLE_STATES):
             return 0
         # states that only the start actions can jump to (out-of-space handlers of leading appends) are reachable too
-        accessible = set(self.dfa.dfs(extra_roots=[tgt for action in self.start_actions for tgt in action.get_target_override_targets()]))
+        roots = [tgt for action in self.start_actions for tgt in action.get_target_override_targets()]
+        while True:
+            accessible = set(self.dfa.dfs(extra_roots=roots))
+            # the code emitted for a transition mentions the override targets of all of its actions, also of those that an
+            # earlier finish or break on the same transition keeps from ever running (which the traversal skips)
+            more = [tgt for state in accessible for t in state.all_transitions() for action in t.actions
+                    for tgt in action.get_target_override_targets() if tgt is not None and tgt not in accessible]
+            if not more:
+                break
+            roots.extend(more)
         mod = 0
         for i in self.dfa.states.copy():
             if i not in accessible:
